@@ -1,5 +1,5 @@
 # replay of a bounded stand-in violation (C11): re-run native/c11_compilers.py
 import sys
-print("gaussian_merge n=4 gates=[('BSgate', (2, 1)), ('Sgate', (3,)), ('S2gate', (2, 3)), ('Vgate', (1,)), ('BSgate', (3, 2)), ('MZgate', (2, 3)), ('BSgate', (0, 1)), ('Kgate', (1,)), ('S2gate', (0, 2)), ('Rgate', (1,)), ('Dgate', (3,)), ('Vgate', (0,)), ('BSgate', (1, 0)), ('S2gate', (3, 1)), ('Kgate', (1,)), ('MZgate', (0, 1)), ('Sgate', (2,)), ('MZgate', (3, 2))]: compile raised NetworkXUnfeasible: Graph contains a cycle or graph changed during iteration")
+print("passive n=6 modes=[4, 2, 0, 5] gates=[('Rgate', (4,)), ('Rgate', (2,)), ('MZgate', (2, 5)), ('PassiveChannel', (4, 5, 2)), ('Interferometer', (4, 0)), ('Rgate', (2,)), ('Rgate', (5,)), ('BSgate', (5, 2)), ('MZgate', (4, 0)), ('BSgate', (2, 5)), ('Rgate', (4,)), ('Rgate', (5,)), ('Rgate', (5,)), ('BSgate', (0, 5)), ('BSgate', (2, 4)), ('MZgate', (0, 5))]: compiled program leaves a different Gaussian state (max difference 0.409)")
 print('REPLAY-VIOLATION')
 sys.exit(1)
